@@ -44,6 +44,10 @@ class SimRandom(random.Random):
         self.hasher = hashlib.sha256()
         self.draws = 0
         self.seed_calls = []
+        # how often seed(a) came again, for the same a, after numbers had
+        # been drawn: the same numbers are then used a second time
+        self.restarts = 0
+        self._draws_at_seed = {}
         self.draws_before_seed = 0
         self.adversarial = 0
         self.strategy = strategy
@@ -90,6 +94,10 @@ class SimRandom(random.Random):
             return super().seed(a, version)
         self.seed_calls.append(a if isinstance(a, (int, str, type(None)))
                                else repr(type(a)))
+        if isinstance(a, (int, str)) and not isinstance(a, bool):
+            if self.draws > self._draws_at_seed.get(a, self.draws):
+                self.restarts += 1
+            self._draws_at_seed[a] = self.draws
         self.hasher.update(("seed:%r" % (a,)).encode("utf-8", "replace"))
         if len(self.transcript) < self._keep:
             self.transcript.append(("seed", a if isinstance(
